@@ -468,11 +468,6 @@ func verifC46ConcScenario(r *vh.Run, sc verifC46Conc) (xplore.Scenario, func(x *
 			bad = append(bad, "step horizon reached")
 			setKind("harness")
 		}
-		nblobs := 0
-		for _, s := range sc.layout {
-			_ = s
-			nblobs++
-		}
 		r.Outcome(fmt.Sprintf("%s|loads=%d", sc.name, st.repo.loads))
 		r.State(sc.name + "|" + strings.Join(x.Trace, ">"))
 		// non-trivial: the two readers really interleaved inside the cache (some blob was loaded
@@ -506,7 +501,7 @@ var verifC46ConcScenarios = []verifC46Conc{
 }
 
 func verifC46Fine(t *testing.T, r *vh.Run) {
-	bound := vh.Pick(r, 2, 3)
+	bound := vh.Pick(r, 3, 4)
 	for _, sc := range verifC46ConcScenarios {
 		scen, check := verifC46ConcScenario(r, sc)
 		st := vx.Explore(r, t, "conc-"+sc.name, scen, xplore.Options{Policy: xplore.Preempt, Bound: bound, LockPoints: true, MaxSteps: 600}, check)
@@ -523,9 +518,7 @@ func TestVerif_C46(t *testing.T) {
 		"FINE: two readers on a shared handle with a one-blob cache, all orders of cache-mutex acquisitions and load completions within the preemption bound; non-trivial = execution with >= 2 switches between the readers; states = distinct schedules")
 	r.Assume("the FUSE kernel/userspace transport is not exercised: handlers are called in-process with the request/response shapes the anacrolix/fuse server builds",
 		"FINE part: accesses outside bloblru's critical sections are thread-local (free-running -race pass), LoadBlob never fails")
-	if _, replaying := r.Replaying(); !replaying || true {
-		verifC46Enum(t, r)
-	}
+	verifC46Enum(t, r)
 	verifC46Fine(t, r)
 }
 
